@@ -396,6 +396,7 @@ int main(void)
             continue;
         }
         if (sscanf(l, "camfail %ld %ld", &x, &y) == 2) { mock_cam[x].fail_at = y; continue; }
+        if (sscanf(l, "camreject %ld", &x) == 1 && x >= 0 && x < MOCK_NCAM) { mock_cam[x].reject_sets = 1; continue; }
         if (sscanf(l, "camstartfail %ld", &x) == 1) { mock_cam[x].start_fails = 1; continue; }
         if (sscanf(l, "stofail %ld %ld", &x, &y) == 2) { mock_sto[x].fail_at = y; continue; }
         if (sscanf(l, "stostartfail %ld", &x) == 1) { mock_sto[x].start_fails = 1; continue; }
